@@ -128,8 +128,16 @@ class Recorder:
     def __enter__(self):
         osci = self.main._osc_interface
         self.saved = (osci.__dict__.get('send_msg'), osci.__dict__.get('send_bundle'))
-        osci.send_msg = lambda target, *args: self.sent.append(('msg', list(args)))
-        osci.send_bundle = lambda target, time, *els: self.sent.append(('bundle', time, [list(e) for e in els]))
+        self.targets = []
+
+        def send_msg(target, *args):
+            self.targets.append(target)
+            self.sent.append(('msg', list(args)))
+
+        def send_bundle(target, time, *els):
+            self.targets.append(target)
+            self.sent.append(('bundle', time, [list(e) for e in els]))
+        osci.send_msg, osci.send_bundle = send_msg, send_bundle
         return self
 
     def __exit__(self, *a):
@@ -650,6 +658,124 @@ def spelling_scenario(ctx):
     return {'action': arg}
 
 
+SECOND_FORMS = ['Synth()', 'Synth.new_paused', 'Synth.grain', 'Synth.after', 'Synth.before', 'Synth.head', 'Synth.tail',
+                'Synth.replace', 'Group()', 'Group.after', 'Group.head', 'ParGroup()', 'Buffer()', 'ControlBus.set',
+                'node.set', 'node.free', 'Buffer.free']
+_SECOND = []
+
+
+def second_scenario(ctx):
+    """objects created on a server that is not the default one: every command goes to that server's address and every
+    id comes from that server's allocators (the default server's allocators are not touched)"""
+    m = N()
+    nod, srv, main, buf, bus = m['nod'], m['srv'], m['main'], m['buf'], m['bus']
+    from sc3.base import netaddr as nad
+    fi = ctx.choose('form', len(SECOND_FORMS))
+    tk = ctx.choose('target', 2)        # 0: the second server itself, 1: a group on it
+    inside = ctx.choose('bind', 2)
+    form = SECOND_FORMS[fi]
+    rec = {'mode': 'nrt', 'kind': 'second', 'sel': {'form': fi, 'target': tk, 'bind': inside}}
+    if hasattr(main, 'reset'):
+        main.reset()
+    if not _SECOND:
+        _SECOND.append(srv.Server('vfsecond', nad.NetAddr('127.0.0.1', 57177)))
+    s2 = _SECOND[0]
+    s1 = srv.Server.default
+    s1._new_allocators()
+    s2._new_allocators()
+    with Recorder(main) as R:
+        grp = nod.Group(s2)
+        other = nod.Synth('default', None, grp)
+        b0 = buf.Buffer(8, 1, s2)
+        cb = bus.ControlBus(1, s2)
+        if tk == 0 and form in ('Synth.after', 'Synth.before', 'Synth.replace', 'Group.after'):
+            raise PathAbort('relative placement needs a node')
+        target = s2 if tk == 0 else grp
+        ids1 = (s1._node_allocator._temp, tuple(sorted(b.start for b in s1._buffer_allocator.blocks())))
+        nxt = s2._node_allocator._temp
+        n0 = len(R.sent)
+        cm = s2.bind() if inside else None
+        if cm:
+            cm.__enter__()
+        o = None
+        if form == 'Synth()':
+            o = nod.Synth('default', ['freq', 1], target)
+        elif form == 'Synth.new_paused':
+            o = nod.Synth.new_paused('default', ['freq', 1], target)
+        elif form == 'Synth.grain':
+            nod.Synth.grain('default', ['freq', 1], target)
+        elif form == 'Synth.after':
+            o = nod.Synth.after(other, 'default')
+        elif form == 'Synth.before':
+            o = nod.Synth.before(other, 'default')
+        elif form == 'Synth.head':
+            o = nod.Synth.head(target, 'default')
+        elif form == 'Synth.tail':
+            o = nod.Synth.tail(target, 'default')
+        elif form == 'Synth.replace':
+            o = nod.Synth.replace(other, 'default')
+        elif form == 'Group()':
+            o = nod.Group(target)
+        elif form == 'Group.after':
+            o = nod.Group.after(other)
+        elif form == 'Group.head':
+            o = nod.Group.head(target)
+        elif form == 'ParGroup()':
+            o = nod.ParGroup(target)
+        elif form == 'Buffer()':
+            nb = buf.Buffer(8, 1, s2)
+            if nb.bufnum == b0.bufnum:
+                raise Violation('a second buffer on the second server got the number of the first', None,
+                                {'key': 'c17:second', 'replay': rec})
+        elif form == 'ControlBus.set':
+            cb.set(0.5)
+        elif form == 'node.set':
+            other.set('freq', 2)
+        elif form == 'node.free':
+            other.free()
+        else:
+            b0.free()
+        if cm:
+            cm.__exit__(None, None, None)
+        new_targets = R.targets[n0:]
+        cmds = [c for s_ in R.sent[n0:] for c in ([s_[1]] if s_[0] == 'msg' else s_[2])]
+    if hasattr(main, 'reset'):
+        main.reset()
+
+    def bad(what):
+        raise Violation(f'{form} with a target on a second server ({["the server", "a group"][tk]}'
+                        f'{", inside bind()" if inside else ""}): {what}', None, {'key': 'c17:second', 'replay': rec})
+    if not cmds:
+        bad('no command reached the wire')
+    want = s2.addr._target
+    for t in new_targets:
+        if t != want:
+            bad(f'a command was sent to {t}, the server is at {want}')
+    if o is not None:
+        if o.server is not s2:
+            bad('the new object belongs to another server')
+        if o.node_id != nxt:
+            bad(f'the new node got id {o.node_id}, the second server\'s allocator was at {nxt}')
+        own = [c for c in cmds if c[0] in ('/s_new', '/g_new', '/p_new')]
+        if len(own) != 1 or (own[0][2] if own[0][0] == '/s_new' else own[0][1]) != o.node_id:
+            bad(f'creation command {own} does not carry the object\'s id {o.node_id}')
+    ids1b = (s1._node_allocator._temp, tuple(sorted(b.start for b in s1._buffer_allocator.blocks())))
+    if ids1b != ids1:
+        bad('ids were taken from the default server\'s allocators')
+    ctx.obligations += 1
+    ctx.discharged += 1
+    ctx.note('second')
+    return {'form': form}
+
+
+def job_second(j):
+    st = explore(second_scenario, max_paths=1000, timeout_ms=5000, stop_on_violation=True)
+    d = st.as_dict()
+    for v in d['violations']:
+        v['data']['replay']['what'] = v['what']
+    return d
+
+
 def job_spelling(j):
     st = explore(spelling_scenario, max_paths=1000, timeout_ms=5000, stop_on_violation=True)
     d = st.as_dict()
@@ -703,6 +829,14 @@ def replay(rec):
         except Violation as v:
             return v.what
         return None
+    if rec.get('kind') == 'second':
+        try:
+            second_scenario(_CCtx(dict(rec['sel'])))
+        except Violation as v:
+            return v.what
+        except PathAbort:
+            return None
+        return None
     ctx = _CCtx(rec.get('values', {}))
     tier_deep[0] = rec.get('deep', False)
     try:
@@ -744,6 +878,9 @@ def main(tier, seed):
     for r in run_jobs('vf.props.c17', 'job_spelling', [dict()], 'nrt'):
         chk.add('spelling', r)
     chk.require_notes('spelling', ['spelling'])
+    for r in run_jobs('vf.props.c17', 'job_second', [dict()], 'nrt'):
+        chk.add('second_server', r)
+    chk.require_notes('second_server', ['second'])
     chk.bounds = {'history_length': f'{nops} outside bind(), {nops - 1} inside', 'operations': OPS, 'add_actions': ACTIONS,
                   'targets': 'server/default group, an existing node, root node id 0',
                   'consecutive_buffers': '1..4 (symbolic)', 'bind': 'outside, inside bind(), inside bind() with an '
